@@ -92,8 +92,14 @@ def _lean_chars(s):
 
 def tables(ctx):
     """Constants of the live FileSession class the model and the proofs depend on."""
-    from cherrypy.lib import sessions
-    pre, suf = sessions.FileSession.SESSION_PREFIX, sessions.FileSession.LOCK_SUFFIX
+    try:
+        from cherrypy.lib import sessions
+        pre, suf = sessions.FileSession.SESSION_PREFIX, sessions.FileSession.LOCK_SUFFIX
+        if not (isinstance(pre, str) and isinstance(suf, str)):
+            raise TypeError('SESSION_PREFIX / LOCK_SUFFIX are not strings')
+    except Exception as e:      # the code under test is broken: keep the last table, the run will show it
+        ctx.note('tables: cherrypy.lib.sessions unusable (%r); table not regenerated' % (e,))
+        return {}
     src = ('/- GENERATED by harness/c11.py from cherrypy.lib.sessions.FileSession - do not edit. -/\n'
            'namespace CpModel.PathContain\n\n'
            '/-- `FileSession.SESSION_PREFIX` = %r -/\n'
@@ -155,6 +161,8 @@ def model_line(case, obs):
         for name, st in obs['listing']:
             parts += [T(name), st]
         return ' '.join(parts)
+    if k == 'conc':
+        return None
     if k == 'resolve':
         return 'resolve %s %s %s' % (','.join(T(d) for d in obs['dirs']) or '-',
                                      ','.join(T(f) for f in obs['files']) or '-', T(obs['path']))
@@ -210,17 +218,30 @@ def run_chunk(args):
     """Worker: build a sandbox, run the cases on the real code, return plain records."""
     cases, = args
     out = []
-    with fs.Sandboxes() as sb:
+    box = fs.Sandboxes()
+    try:
+        sb = box.__enter__()
+    except Exception as e:
+        if fs.origin(e) != 'code' and not isinstance(e, (ImportError, SyntaxError)):
+            raise
+        # the code under test does not even import / configure: every case observes that
+        return [(case, {'code_raised': 'setup ' + fs.describe(e), 'oracle': [], 'hist': ['setup:code-raised']})
+                for case in cases]
+    try:
         for case in cases:
             obs = sb.run(case)
             out.append((case, obs))
+    finally:
+        box.__exit__(None, None, None)
     return out
 
 
-def check_cases(ctx, cases, compare_model=True, procs=1):
+def check_cases(ctx, cases, compare_model=True, procs=1, one_per_task=False):
     if not cases:
         return
-    if procs > 1 and len(cases) > 200:
+    if one_per_task and procs > 1:
+        results = [r for part in common.parallel_map(run_chunk, [([c],) for c in cases], procs) for r in part]
+    elif procs > 1 and len(cases) > 200:
         n = procs * 2
         chunks = [cases[i::n] for i in range(n)]
         results = [r for part in common.parallel_map(run_chunk, [(c,) for c in chunks], procs) for r in part]
@@ -233,8 +254,17 @@ def check_cases(ctx, cases, compare_model=True, procs=1):
             ctx.count(h)
         if obs.get('harness_error'):
             raise common.HarnessError('%s on case %s' % (obs['harness_error'], json.dumps(case)[:400]))
-        for what, sig in obs.get('oracle', []):
-            ctx.oracle_fail(case, what, sig)
+        for item in obs.get('oracle', []):
+            what, sig = item[0], item[1]
+            ctx.oracle_fail(item[2] if len(item) > 2 else case, what, sig)
+        for key, n in obs.get('counts', {}).items():
+            ctx.count(key, n)
+        if obs.get('code_raised'):
+            # an exception of the code under test where the unchanged tree raises none
+            ctx.compared()
+            ctx.disagree(case, obs['code_raised'], 'no exception (unchanged tree: the runner completes)',
+                         'C11 %s: the code under test raised out of the runner' % case['k'])
+            continue
         if compare_model:
             l = model_line(case, obs)
             if l is not None:
@@ -278,10 +308,13 @@ def run(ctx):
     cases += [gen.cleanup_case(rng) for _ in range(ctx.budget(60, 2000))]
     cases += [gen.alg_case(rng) for _ in range(ctx.budget(6000, 200000))]
     cases += [gen.resolve_case(rng) for _ in range(ctx.budget(600, 20000))]
+    conc = gen.conc_cases(rng, ctx.quick())
     small = gen.enum_small(ctx.budget(3, 4))
     cases += small
     ctx.extra['exhaustive_small_scope'] = len(small)
     check_cases(ctx, cases, procs=procs)
+    # two-thread schedules: each sweep is its own task (a sweep is 50-3000 scheduled runs)
+    check_cases(ctx, conc, procs=min(8 if ctx.quick() else 16, os.cpu_count() or 2), one_per_task=True)
 
 
 def search(ctx, around=None):
@@ -295,6 +328,7 @@ def search(ctx, around=None):
     cases += [gen.sess_wsgi_case(rng) for _ in range(6000)]
     cases += gen.enum_small(4)
     check_cases(ctx, cases, compare_model=False, procs=16)
+    check_cases(ctx, gen.conc_cases(rng, ctx.quick()), compare_model=False, procs=16, one_per_task=True)
 
 
 def replay(ctx, case):
